@@ -3029,7 +3029,7 @@ func sharedNilOnlyAbsent(c *an.Ctx, rule string, allowed map[string]string, pref
 // captured by the closure (or from a package variable) is shared by all pooled
 // objects, so two requests in flight write into the same memory.  Returns the
 // number of constructors examined.
-func sharedPoolNewFresh(c *an.Ctx, rule string) (examined int) {
+func sharedPoolNewFresh(c *an.Ctx, rule string, prefixes ...string) (examined int) {
 	ctors := poolCtors(c)
 	// sync.Pool{New: f}
 	for _, fn := range c.AllFns {
@@ -3061,7 +3061,7 @@ func sharedPoolNewFresh(c *an.Ctx, rule string) (examined int) {
 		return false
 	}
 	for fn := range ctors {
-		if fn.Blocks == nil || c.IsTestFile(fn.Pos()) || !c.InRepo(fn) {
+		if fn.Blocks == nil || c.IsTestFile(fn.Pos()) || !c.InRepo(fn) || !hasAnyPrefix(an.FnKey(fn), prefixes) {
 			continue
 		}
 		examined++
@@ -4066,9 +4066,9 @@ func sharedCharRanges(c *an.Ctx, rule string, prefixes ...string) (examined int)
 // two users.  Every such Put must therefore be guarded by cap(s) == N (a
 // comparison with >= admits windows into larger buffers).  Returns the number
 // of Puts of converted slices examined.
-func sharedArrayPoolPut(c *an.Ctx, rule string) (examined int) {
+func sharedArrayPoolPut(c *an.Ctx, rule string, prefixes ...string) (examined int) {
 	for _, fn := range c.AllFns {
-		if fn.Blocks == nil || c.IsTestFile(fn.Pos()) {
+		if fn.Blocks == nil || c.IsTestFile(fn.Pos()) || !hasAnyPrefix(an.FnKey(fn), prefixes) {
 			continue
 		}
 		k := an.FnKey(fn)
@@ -4263,4 +4263,98 @@ func sharedNoNilInterfaceResult(c *an.Ctx, rule string, allowed map[string]strin
 		}
 	}
 	return examined
+}
+
+
+// hasAnyPrefix reports whether s starts with one of the prefixes; an empty list
+// accepts everything.
+func hasAnyPrefix(s string, prefixes []string) bool {
+	if len(prefixes) == 0 {
+		return true
+	}
+	for _, p := range prefixes {
+		if strings.HasPrefix(s, p) {
+			return true
+		}
+	}
+	return false
+}
+
+// propPkgs lists, per property, the packages the property rests on (prefixes of
+// function keys; "dnsserver" covers the package and its sub-packages).  The
+// class rules of classSweep are run for a property over these packages only: a
+// class-rule violation elsewhere says nothing about the property.
+var propPkgs = map[string][]string{
+	"C01": {"dnsserver", "dnssvc", "dnsmsg.", "bindtodevice.", "ecscache.", "agdnet."},
+	"C02": {"filter", "dnssvc/internal/mainmw.", "dnsmsg.", "cmd.", "backendpb.", "profiledb/internal/filecachepb."},
+	"C03": {"dnssvc/internal/devicefinder.", "profiledb", "backendpb.", "agd.", "agdpasswd.", "cmd."},
+	"C04": {"dnsserver/cache.", "ecscache.", "agdcache.", "dnsmsg.", "cmd."},
+	"C05": {"ecscache.", "geoip.", "dnsmsg.", "dnssvc/internal/ratelimitmw."},
+	"C06": {"dnsserver", "bindtodevice.", "dnsmsg.", "dnssvc/internal/mainmw.", "dnssvc/internal/ratelimitmw."},
+	"C07": {"dnsmsg.", "dnsserver", "ecscache.", "filter/hashprefix.", "dnssvc", "bindtodevice.", "agdcache.", "querylog.", "billstat."},
+	"C08": {"dnsserver.", "dnsmsg.", "ecscache.", "dnssvc/internal/mainmw."},
+	"C09": {"dnsserver/ratelimit.", "dnssvc/internal/ratelimitmw.", "agd.", "consul.", "backendpb.", "cmd."},
+	"C10": {"access.", "dnssvc/internal/ratelimitmw.", "backendpb.", "profiledb/internal/filecachepb.", "agdnet.", "geoip."},
+	"C11": {"filter/hashprefix.", "dnssvc/internal/preservice.", "filter/internal/refreshable.", "cmd."},
+	"C12": {"filter", "agdcache."},
+	"C13": {"filter", "agdservice.", "agdhttp.", "cmd."},
+	"C14": {"profiledb", "backendpb.", "agdservice."},
+	"C15": {"querylog.", "dnssvc/internal/mainmw.", "dnssvc/internal/ratelimitmw.", "profiledb", "access.", "filter/internal."},
+	"C16": {"billstat.", "backendpb.", "dnssvc/internal/mainmw.", "agdservice.", "geoip.", "ecscache.", "dnsserver."},
+	"C17": {"dnsserver/forward.", "dnsserver/pool.", "cmd."},
+	"C18": {"connlimiter.", "dnsserver.", "dnssvc.", "cmd."},
+	"C19": {"websvc.", "cmd."},
+	"C20": {"cmd.", "dnssvc.", "dnsserver."},
+}
+
+// classSweep runs the repository-independent class rules (each a necessary
+// condition of memory separation, completeness of conversions, error
+// classification, … that is visible in the shape of the code) over the packages
+// property prop rests on, under the rule id <prop>-RC.
+func classSweep(c *an.Ctx, prop string) {
+	rule := prop + "-RC"
+	pk := propPkgs[prop]
+	if len(pk) == 0 {
+		c.Und(rule, "class rules", token.NoPos, "no package set for %s", prop)
+		return
+	}
+	var pkgPaths []string
+	for _, p := range pk {
+		pkgPaths = append(pkgPaths, strings.TrimSuffix(p, "."))
+	}
+	counts := []string{}
+	add := func(name string, n int) { counts = append(counts, fmt.Sprintf("%s=%d", name, n)) }
+	add("error-chain", sharedErrorChain(c, rule, errChainExceptions, pk...))
+	add("shadowed-result", sharedShadowedResult(c, rule, pkgPaths...))
+	add("char-ranges", sharedCharRanges(c, rule, pk...))
+	add("crossed-args", sharedSwappedArgs(c, rule, pk...))
+	add("pool-ctors", sharedPoolNewFresh(c, rule, pk...))
+	add("array-pool", sharedArrayPoolPut(c, rule, pk...))
+	add("loops", sharedLoopCompleteness(c, rule, pk...))
+	add("loop-carried", sharedNoLoopCarried(c, rule, pk...))
+	add("setters", sharedReplaceNotAccumulate(c, rule, pk...))
+	add("clones", sharedCloneComplete(c, rule, nil, pk...))
+	add("grow", sharedGrowArith(c, rule, pk...))
+	add("pooled-buffers", sharedPooledBufferEscape(c, rule, pk...))
+	add("sorted-search", sharedSortedSearch(c, rule, pk...))
+	add("decode-targets", sharedFreshDecodeTarget(c, rule, pk...))
+	add("per-iteration", sharedPerIterationObjects(c, rule, pk...))
+	n := 0
+	for _, p := range pk {
+		n += sharedNoShallowCopy(c, rule, p, "github.com/miekg/dns.Msg")
+	}
+	add("msg-copies", n)
+	codec := []string{}
+	for _, p := range pk {
+		if p == "backendpb." || p == "profiledb/internal/filecachepb." || p == "profiledb" {
+			codec = append(codec, "backendpb.", "profiledb/internal/filecachepb.")
+			break
+		}
+	}
+	if len(codec) > 0 {
+		add("codec-guards", sharedCodecGuards(c, rule, nil, codec...))
+		add("nil-only-absent", sharedNilOnlyAbsent(c, rule, nilWhenDisabled, codec...))
+		add("nil-interfaces", sharedNoNilInterfaceResult(c, rule, nil, codec...))
+	}
+	c.Ok(rule, "class rules over the packages of "+prop, token.NoPos, "instances examined: "+strings.Join(counts, " "))
 }
